@@ -323,15 +323,49 @@ theorem popEnv_popEnv (ρ : Env) (a b : Nat) (hab : a ≤ b) (hb : b ≤ ρ.leng
 theorem St.popTo_env (s : St) (len : Nat) : (s.popTo len).env = popEnv s.env len := rfl
 theorem St.popTo_out (s : St) (len : Nat) : (s.popTo len).out = s.out := rfl
 
-/-- the shape shared by the three simulation statements -/
+/-- the operand temporaries `T` without the `d` operands pushed since the body of the enclosing loop began:
+    what `break`/`continue` leave on the stack (fix 0c43abd: they emit that many `Pop`s before the jump) -/
+def dropPending (T : List VM.Val) (d : Nat) : List VM.Val := T.take (T.length - d)
+
+@[simp] theorem dropPending_zero (T : List VM.Val) : dropPending T 0 = T := by simp [dropPending]
+
+theorem dropPending_snoc (T : List VM.Val) (x : VM.Val) (d : Nat) : dropPending (T ++ [x]) (d + 1) = dropPending T d := by
+  unfold dropPending
+  have : (T ++ [x]).length - (d + 1) = T.length - d := by simp
+  rw [this, List.take_append_of_le_length (by omega)]
+
+/-- `d` pops in a row drop the `d` pending operands -/
+theorem steps_pops (W : World) (lc : Nat × Nat) : ∀ (d pos : Nat) (L T : List VM.Val) (out : List String),
+    d ≤ T.length → codeAt W.P pos (resolveAt pos lc (List.replicate d .pop)) →
+    Steps W.P (W.cfg pos L T out) (W.cfg (pos + d) L (dropPending T d) out) := by
+  intro d
+  induction d with
+  | zero => intro pos L T out _ _; simp only [dropPending_zero, Nat.add_zero]; exact .refl _
+  | succ d ih =>
+    intro pos L T out hd hcode
+    rcases List.eq_nil_or_concat T with rfl | ⟨T', v, rfl⟩
+    · simp at hd
+    · simp only [List.concat_eq_append] at hd ⊢
+      simp only [List.replicate_succ, resolveAt] at hcode
+      have h0 : W.P[pos]? = some .pop := codeAt_head hcode
+      have hrest := codeAt_tail hcode
+      rw [dropPending_snoc]
+      have hd' : d ≤ T'.length := by simp at hd; omega
+      have := ih (pos + 1) L T' out hd' hrest
+      have e : pos + 1 + d = pos + (d + 1) := by omega
+      rw [e] at this
+      exact (Steps.single (step_pop W h0 L T' v out)).trans this
+
+/-- the shape shared by the three simulation statements; `d` = operands pending since the body of the enclosing
+    loop began: a `break`/`continue` reaches the loop's exit/entry with exactly those dropped -/
 def Out (W : World) (lc : Nat × Nat) (d : Nat) (pos endpc : Nat) (L T : List VM.Val) (out0 : List String)
     (res : Sem.Val → List VM.Val) (envOk envSig : List VM.Val → Env → Prop) (valOk : Sem.Val → Prop) :
     Res Sem.Val → Prop
   | .ok v st' => ∃ L', Steps W.P (W.cfg pos L T out0) (W.cfg endpc L' (T ++ res v) st'.out)
         ∧ envOk L' st'.env ∧ L'.length = L.length ∧ valOk v
-  | .sig .brk st' => d = 0 ∧ ∃ L', Steps W.P (W.cfg pos L T out0) (W.cfg lc.2 L' T st'.out)
+  | .sig .brk st' => ∃ L', Steps W.P (W.cfg pos L T out0) (W.cfg lc.2 L' (dropPending T d) st'.out)
         ∧ envSig L' st'.env ∧ L'.length = L.length
-  | .sig .cont st' => d = 0 ∧ ∃ L', Steps W.P (W.cfg pos L T out0) (W.cfg lc.1 L' T st'.out)
+  | .sig .cont st' => ∃ L', Steps W.P (W.cfg pos L T out0) (W.cfg lc.1 L' (dropPending T d) st'.out)
         ∧ envSig L' st'.env ∧ L'.length = L.length
   | .sig (.err k) st' => ∃ s1 s2, Steps W.P (W.cfg pos L T out0) s1 ∧ VM.step W.P s1 = .error (encErr k) s2
         ∧ s1.out = st'.out
